@@ -148,10 +148,24 @@ def main():
             no("honest run raised %r" % (out["exc"],))
         if kind == "c03_rejected_provable":
             # the honest run (errors on) must reject these operands ...
-            cfg_e = dict(cfg); cfg_e["ignore"] = False
-            hon = run_concrete(env, entry, cfg_e, ints(spec["inputs"]))
+            hon = out
+            if spec.get("honest_cfg"):
+                hon = run_concrete(env, entry, spec["honest_cfg"], {k: v for k, v in ints(spec["inputs"]).items()
+                                                                     if not k.startswith("g")})
             if hon["outcome"] == "ok":
                 no("operands are accepted at run time")
+            if spec.get("struct_ignore", True):
+                cfg_i = dict(cfg); cfg_i["ignore"] = True
+                out = run_concrete(env, entry, cfg_i, ints(spec["inputs"]))
+                if out["outcome"] != "ok":
+                    no("ignore_errors run raised %r" % (out["exc"],))
+            else:
+                # constructors that raise even under ignore_errors: structure of an accepted run (value 0 or 1)
+                acc = {k: 0 for k in spec["inputs"]}
+                out = run_concrete(env, entry, cfg, acc)
+                kk = out["kit"]
+                for nm, key in kk.operands:
+                    (out["pub"] if key[0] == "pub" else out["priv"])[key[1]] = int(spec["inputs"][nm])
         priv = list(out["priv"])
         for idx, v in spec["adversarial"].items():
             priv[int(idx)] = int(v)
@@ -170,6 +184,15 @@ def main():
                 yes("operands %s: second satisfying witness gives result %d = %d instead of %d" % (
                     spec["inputs"], i, w, lc.value % P))
         no("adversarial witness yields the honest results")
+
+    if kind == "c03_accepted_false":
+        out = run(spec["inputs"])
+        if out["outcome"] != "ok":
+            no("run raised")
+        k = out["kit"]
+        if not bool(entry.ref(k)):
+            yes("operands %s accepted although the asserted relation is false" % spec["inputs"])
+        no("relation holds")
 
     if kind == "c03_accepted_unsat":
         out = run(spec["inputs"])
